@@ -14,7 +14,7 @@ mkdir -p $T/v/evidence $T/v/replays $T/v/.bin
 cp /verif/known_findings.json /verif/properties.jsonl $T/v/
 ( cd $T/harness && go mod edit -replace github.com/elys-network/elys=$T/repo && cp $T/repo/go.sum go.sum && go build -tags verif -o $T/v/.bin/verif ./cmd/verif ) || { echo "harness does not build against the change"; exit 2; }
 for p in "$@"; do
-  out=$(VERIF_DIR=$T/v $T/v/.bin/verif run $p $TIER 2>&1); e=$?
+  out=$(VERIF_NORACE=1 VERIF_DIR=$T/v $T/v/.bin/verif run $p $TIER 2>&1); e=$?
   echo "--- $p exit=$e"
   echo "$out" | grep -E "^(VIOLATION|INCONCLUSIVE)" -A2 | cut -c1-330 | sed "s#$T/v#/verif#" | head -${SEED_LINES:-9}
   echo "$out" | tail -1 | cut -c1-160
